@@ -633,6 +633,13 @@ def check(prop: str, tier: str, seed: int) -> int:
     if prop in ("C05", "C09"):
         from . import checks_api
         checks_api.extend(run, prop, tier, rnd)
+    if prop in ("C04", "C10") and not quick:
+        # fidelity self-test of the virtual loop against real loopback sockets (never a verdict about the property)
+        from . import selftest_loopback
+        st = selftest_loopback.run_selftest()
+        run.cov["loopback_selftest"] = {"scenarios": st["scenarios"], "mismatches": len(st["mismatches"]), "errors": st["errors"][:3]}
+        for mm in st["mismatches"][:3]:
+            run.notes.append("HARNESS-MISMATCH: virtual loop and real loopback sockets differ: " + json.dumps(mm)[:300])
     return run.finish()
 
 
